@@ -24,6 +24,7 @@ import (
 //	sr <prim> [arg]         serialization.ReadX: "<val> rem=<n>" or "err:<class> rem=<n>"
 //	rt <prim> <val> <suffix>   property op: both encoders agree, both decoders return the value and consume exactly the
 //	                        encoding when followed by <suffix>, every examined truncation is eof / error: "<hex> ok"
+//	reuse <mode> <junk> <prim> <val> ...   fields written into a sink that already held junk (Reset / BackUp / dirty caller buffer / prefix)
 //	holdsink <prim> <val> ...  every value written into its own sink / serialization.ToArray, results kept and re-checked at the end
 //	sbig <n>:<fill> ...     large var-bytes fields read back-to-back (streaming), all values compared after the last read
 //	check                   the same for the concatenation of everything written in this case: "ok n=<fields> len=<L>"
@@ -478,6 +479,53 @@ func (f *codecFam) Exec(r *hx.Run, op []string) string {
 			r.Viol("C01:stream-length-beyond-data-accepted:"+op[1], fmt.Sprintf("serialization.Read %s: declared length %d exceeds the %d remaining bytes but %s is returned", op[1], declared, remBefore, trunc(v, 60)))
 		}
 		return fmt.Sprintf("%s rem=%d", v, f.sbuf.Len())
+	case "reuse":
+		// reuse <reset|backup|dirty|prefix> <junk> <prim> <val> ...: the fields are written into a sink that already held <junk>
+		// (written then Reset(); written then BackUp(len); NewZeroCopySink over junk[:0], i.e. dirty spare capacity; NewZeroCopySink
+		// over junk itself). The bytes must be those of a fresh sink (after the junk prefix in the last mode).
+		if len(op) < 5 || len(op)%2 != 1 {
+			return "bad-op"
+		}
+		junk := hx.UnHex(op[2])
+		var sink *common.ZeroCopySink
+		prefix := 0
+		switch op[1] {
+		case "reset":
+			sink = common.NewZeroCopySink(nil)
+			sink.WriteBytes(junk)
+			sink.Reset()
+		case "backup":
+			sink = common.NewZeroCopySink(nil)
+			sink.WriteBytes(junk)
+			sink.BackUp(uint64(len(junk)))
+		case "dirty":
+			sink = common.NewZeroCopySink(append([]byte{}, junk...)[:0])
+		case "prefix":
+			sink = common.NewZeroCopySink(append(make([]byte, 0, 2*len(junk)+64), junk...))
+			for i := len(junk); i < cap(sink.Bytes()); i++ { // dirty spare capacity behind the prefix as well
+				sink.Bytes()[:cap(sink.Bytes())][i] = 0xA5
+			}
+			prefix = len(junk)
+		default:
+			return "bad-op"
+		}
+		fresh := common.NewZeroCopySink(nil)
+		firstBad := ""
+		for i := 3; i+1 < len(op); i += 2 {
+			if _, ok := sinkWrite(sink, op[i], op[i+1]); !ok {
+				return "bad-op"
+			}
+			sinkWrite(fresh, op[i], op[i+1])
+			if firstBad == "" && !bytes.Equal(sink.Bytes()[prefix:], fresh.Bytes()) {
+				firstBad = op[i]
+			}
+		}
+		got := append([]byte{}, sink.Bytes()...)
+		if firstBad != "" || !bytes.Equal(got[:prefix], junk[:prefix]) {
+			r.Viol("C01:sink-reuse-differs:"+op[1]+":"+firstBad, fmt.Sprintf("fields %s written into a %s sink that held %x give %x, a fresh sink gives %x", strings.Join(op[3:], " "), op[1], junk, got[prefix:], fresh.Bytes()))
+			return hx.Hex(got) + " FAIL"
+		}
+		return hx.Hex(got) + " ok"
 	case "holdsink":
 		// holdsink <prim> <val> <prim> <val> ...: each value is written into its own fresh ZeroCopySink and with the streaming
 		// writer; the slices returned by Bytes() / serialization.ToArray are kept while the others are produced, then re-checked
@@ -970,6 +1018,34 @@ func (f *codecFam) Gen(r *hx.Run) {
 			toks = append(toks, p, genVal(r, p))
 		}
 		r.Do("holdsink " + strings.Join(toks, " "))
+	}
+	// 4b''. reused sinks: junk written first, then Reset / BackUp / a dirty caller buffer, then every kind of field
+	for i := 0; i < r.Pick(400, 20000); i++ {
+		newCase("reuse")
+		junk := r.Rng.Bytes(1 + r.Rng.Intn(40))
+		for j := range junk {
+			if junk[j] == 0 || r.Rng.Chance(1, 3) {
+				junk[j] = []byte{0xff, 0x01, 0xfd, 0x80, 0xa5}[r.Rng.Intn(5)]
+			}
+		}
+		mode := []string{"reset", "backup", "dirty", "prefix"}[r.Rng.Intn(4)]
+		var toks []string
+		for j := 0; j < 1+r.Rng.Intn(6); j++ {
+			p := prims[r.Rng.Intn(len(prims))]
+			v := genVal(r, p)
+			if p == "bool" && r.Rng.Chance(2, 3) {
+				v = "false"
+			}
+			if p == "varuint" && r.Rng.Bool() {
+				v = strconv.Itoa(r.Rng.Intn(0xfd))
+			}
+			if len(v) > 80 && (p == "varbytes" || p == "string" || p == "bytes") {
+				v = v[:80]
+			}
+			toks = append(toks, p, v)
+		}
+		r.Do(fmt.Sprintf("reuse %s %s %s", mode, hx.Hex(junk), strings.Join(toks, " ")))
+		r.Nontrivial("reuse/" + mode + "/" + toks[0])
 	}
 	// 4c. declared lengths that wrap the uint64 offset arithmetic: at a non-zero offset `off`, a length n >= 2^64 - off
 	for i := 0; i < r.Pick(120, 5000); i++ {
